@@ -214,6 +214,11 @@ func mkTxs(r *rand.Rand, n int) ([]*wire.MsgTx, [][]int) {
 }
 
 func newWorld(t *tr.W, r *rand.Rand, txs []*wire.MsgTx, tick, mapper bool) *world {
+	return newWorldPeriod(t, r, txs, tick, mapper, 40*time.Millisecond)
+}
+
+// newWorldPeriod: with tick, the Broadcaster runs on a real RebroadcastInterval of `period`.
+func newWorldPeriod(t *tr.W, r *rand.Rand, txs []*wire.MsgTx, tick, mapper bool, period time.Duration) *world {
 	w := &world{t: t, r: r, txs: txs, idOf: map[chainhash.Hash]int{}, tick: tick, mapper: mapper,
 		calls: make(chan *cbCall, 64), ntfn: make(chan blockntfns.BlockNtfn),
 		cancelled: make(chan struct{}), period: time.Hour}
@@ -222,7 +227,7 @@ func newWorld(t *tr.W, r *rand.Rand, txs []*wire.MsgTx, tick, mapper bool) *worl
 	}
 	r.Read(w.dummy[:])
 	if tick {
-		w.period = 40 * time.Millisecond
+		w.period = period
 	}
 	cfg := &pushtx.Config{
 		Broadcast: func(tx *wire.MsgTx) error {
@@ -441,7 +446,7 @@ func (w *world) waitTick() {
 // align sleeps until the ticker is in the first part of its period, so that the
 // end of a rebroadcast is observed before the next tick can start another one.
 func (w *world) align() {
-	if !w.tick {
+	if !w.tick || w.quitSent {
 		return
 	}
 	for {
@@ -710,6 +715,108 @@ func tickCase(t *tr.W, r *rand.Rand) {
 	w.stopret()
 }
 
+// ---------------------------------------------------------------------------
+// A rebroadcast round that outlasts the rebroadcast interval.
+
+const (
+	// slowInterval is the real RebroadcastInterval of a slow case.
+	slowInterval = 50 * time.Millisecond
+	// silentWait bounds the wait for the next Config.Broadcast call once a round has been answered
+	// completely and nothing but the interval can start the next one: 40 intervals.
+	silentWait = 40 * slowInterval
+)
+
+// hold leaves the running rebroadcast's call unanswered until k and a half intervals have passed
+// since `since` (the interval elapses k times while the rebroadcast semaphore is taken).  No other
+// Config.Broadcast call may arrive in that time.
+func (w *world) hold(k int, since time.Time) {
+	w.t.Hit("op.hold")
+	op := fmt.Sprintf("hold %d", k)
+	d := time.Duration(k)*w.period + w.period/2 - time.Since(since)
+	select {
+	case c := <-w.calls:
+		w.t.Op(op, fmt.Sprintf("rb %d", w.id(c.tx)))
+		c.resp <- errOf("mempool", w.mapper)
+	case <-time.After(d):
+		w.t.Op(op, "busy")
+	}
+}
+
+// answer hands the waiting rebroadcast call its result and waits for the next call, whoever makes it:
+// the same rebroadcast going on to its next transaction, or - when that was the last one - the
+// rebroadcast the next interval tick starts (no block event is sent).  "silent": no call within
+// silentWait.
+func (w *world) answer(res string) {
+	w.t.Hit("op.answer." + res)
+	c := w.inflight
+	op := fmt.Sprintf("rbres %d %s", w.id(c.tx), res)
+	w.inflight = nil
+	c.resp <- w.netErr(res, c.tx)
+	select {
+	case c2 := <-w.calls:
+		w.inflight = c2
+		w.t.Op(op, fmt.Sprintf("rb %d", w.id(c2.tx)))
+	case <-time.After(silentWait):
+		w.t.Hit("branch.answer.silent")
+		w.t.Op(op, "silent")
+	}
+}
+
+// slowCase: transaction 0 is accepted; a block event or the first interval tick starts a rebroadcast
+// whose network call the harness leaves unanswered for several intervals (slow or silent peers: one
+// sendTransaction takes up to six seconds, the default interval is a minute).  Meanwhile further
+// transactions are broadcast and some are reported confirmed.  Then every call is answered at once
+// and NO block event follows: the interval alone has to start the next rebroadcasts, each with every
+// transaction accepted and not reported confirmed.  Transaction 0 is never confirmed, so there is
+// always something to rebroadcast.  The run is deterministic up to which trigger started the first
+// round and where one round ends and the next begins; the oracle derives the latter from the calls
+// (a round is over when its whole snapshot has been handed to the network).
+func slowCase(t *tr.W, r *rand.Rand) {
+	n := 2 + r.Intn(4)
+	txs, deps := mkTxs(r, n)
+	t.Case("%s", header("slow", deps, false))
+	t.Hit("case.slow")
+	w := newWorldPeriod(t, r, txs, true, false, slowInterval)
+	w.bcast(0, []string{"accepted", "mempool"}[r.Intn(2)])
+	if r.Intn(2) == 0 {
+		w.block()
+	} else {
+		w.waitTick()
+	}
+	started := time.Now()
+	if w.inflight != nil {
+		accepted := 1
+		for k := r.Intn(5); k > 0 && !w.hung; k-- {
+			i := 1 + r.Intn(n-1)
+			if r.Intn(4) == 0 {
+				w.confirm(i)
+			} else {
+				res := resNames[pick(r, bcastW)]
+				w.bcast(i, res)
+				if res == "accepted" || res == "mempool" {
+					accepted++
+				}
+			}
+		}
+		if !w.hung {
+			w.hold(2+r.Intn(3), started)
+		}
+		// the first round (transaction 0 alone), then two rounds the interval has to start, and the first call of a third
+		for calls := 0; calls < 2+2*accepted && w.inflight != nil && !w.hung; calls++ {
+			res := "mempool"
+			if w.id(w.inflight.tx) != 0 {
+				res = resNames[pick(r, rbW)]
+			}
+			w.answer(res)
+		}
+	}
+	w.quit()
+	if w.inflight != nil {
+		w.rbres("mempool")
+	}
+	w.stopret()
+}
+
 func fcmpCase(t *tr.W, thorough bool) {
 	t.Case("fcmp")
 	thr := [][2]int{{1, 2}, {3, 5}, {2, 3}, {1, 1}, {1, 3}, {9, 10}}
@@ -812,14 +919,15 @@ func Run(t *tr.W, thorough bool) {
 		}
 	}
 	r := tr.Rng(15)
-	nseq, ntick, nparse := 400, 6, 600
+	nseq, ntick, nparse, nslow := 400, 6, 600, 6
 	if thorough {
-		nseq, ntick, nparse = 6000, 60, 5000
+		nseq, ntick, nparse, nslow = 6000, 60, 5000, 40
 	}
 	nseq *= budget
 	nparse *= budget
 	if budget > 1 {
 		ntick *= 3
+		nslow *= 2
 	}
 	for i := 0; i < nseq; i++ {
 		// one PRNG per case (seed, case index): what the implementation does in one case (map
@@ -828,6 +936,9 @@ func Run(t *tr.W, thorough bool) {
 		seqCase(t, tr.Rng(int64(150000+2*i)))
 		if i%(nseq/ntick+1) == 0 {
 			tickCase(t, tr.Rng(int64(150001+2*i)))
+		}
+		if i%(nseq/nslow+1) == nseq/(2*nslow) {
+			slowCase(t, tr.Rng(int64(950001+2*i)))
 		}
 	}
 	parseCase(t, r, nparse)
